@@ -175,6 +175,21 @@ theorem fastPath_sound (vs : List Val) (bytes : List UInt8) (h : fastPath vs = s
             have : n.toNat < 256 := by omega
             simp [Nat.mod_eq_of_lt this]
         · simp at h
+      | flt =>
+        simp only [fastPath] at h
+        split at h
+        · rename_i hn
+          cases hf : fastPath vs with
+          | none => simp [hf] at h
+          | some rest =>
+            simp [hf] at h; subst h
+            simp only [toBRList, toBR, byteBits, if_true]
+            rw [if_neg (by omega), ih rest hf]
+            simp only [bytesToBits_cons, byteToBits]
+            congr 2
+            have : n.toNat < 256 := by omega
+            simp [Nat.mod_eq_of_lt this]
+        · simp at h
     | str s =>
       simp only [fastPath] at h
       cases hf : fastPath vs with
